@@ -133,15 +133,21 @@ Theorem C10_char_token_value_platform_octal p cpp cs ds :
 Proof. exact (char_token_value_platform_octal p cpp cs ds). Qed.
 Print Assumptions C10_char_token_value_platform_octal.
 
-(* refuted for hexadecimal escapes with more than two digits: Token::isCChar counts '\x0ff' as two
-   characters (replaceEscapeSequences reads at most two hex digits), the plain-char adjustment is skipped
-   (finding, replayed on the binary) *)
-Theorem C10_long_hex_escape_char_token_refuted :
-  exists p s z n, In p Gen_platforms /\ p_sign p = 117 /\
-                  char_literal_to_ll s = Some z /\ narrow_nbytes s = Some 1 /\ token_char_count s = Some n /\
-                  (forall cpp, char_token_value p cpp n z <> char_value_on p 255).
-Proof. exact long_hex_escape_char_token_refuted. Qed.
-Print Assumptions C10_long_hex_escape_char_token_refuted.
+(* every hexadecimal escape (any number of digits) is one character for Token::isCChar, so it gets the
+   platform's plain-char value too (true since /repo 483f671; before, refuted by '\x0ff' on arm32-wchar_t4) *)
+Theorem C10_token_char_count_hex_escape ds : forallb is_xdigit ds = true ->
+  token_char_count (39 :: 92 :: 120 :: ds ++ [39]) = Some 1.
+Proof. exact (token_char_count_hex_escape ds). Qed.
+Print Assumptions C10_token_char_count_hex_escape.
+
+Theorem C10_char_token_value_platform_hex p cpp cs ds :
+  digit_seq 16 cs ds -> cs <> [] -> value_of_digits 16 ds < 256 ->
+  p_char_bit p = 8 -> (p_sign p = 115 \/ p_sign p = 117) ->
+  char_literal_to_ll (39 :: (92 :: 120 :: cs) ++ [39]) = Some (sext_spec 8 (value_of_digits 16 ds)) /\
+  token_char_count (39 :: 92 :: 120 :: cs ++ [39]) = Some 1 /\
+  char_token_value p cpp 1 (sext_spec 8 (value_of_digits 16 ds)) = char_value_on p (value_of_digits 16 ds).
+Proof. exact (char_token_value_platform_hex p cpp cs ds). Qed.
+Print Assumptions C10_char_token_value_platform_hex.
 
 (* every entry of the table regenerated from Platform::set and platforms/*.xml is well-formed
    (finite statement: the table is rewritten from the source on every run) *)
@@ -233,5 +239,10 @@ Proof.
     apply (DD_one 51 3). apply (DC_dec 10 3); lia.
   - constructor.
 Qed.
+Example C10_ex_long_hex_escape_arm32 :
+  token_char_count [39; 92; 120; 48; 102; 102; 39] = Some 1 /\
+  char_literal_to_ll [39; 92; 120; 48; 102; 102; 39] = Some (-1)%Z /\
+  char_token_value plat_arm32_wchar_t4 false 1 (-1) = char_value_on plat_arm32_wchar_t4 255.   (* '\x0ff' *)
+Proof. exact long_hex_escape_char_token_now. Qed.
 Example C10_ex_platform : exists p, In p Gen_platforms /\ platform_sane p = true.
 Proof. exists plat_unix64. split; [vm_compute; tauto | vm_compute; reflexivity]. Qed.
